@@ -375,13 +375,23 @@ mutant("c15-literals-fallback-dropped", "C15", "C15.flow", COMP, "    if total_l
 mutant("c15-garbage-after-frame", "C15", "C15.flow", FCOMP, "        // If the `hash` feature is enabled, then `content_checksum` is set to true in the header", "        if self.state.last_huff_table.is_some() && false { drain.write_all(&[0u8]).unwrap(); }\n        // If the `hash` feature is enabled, then `content_checksum` is set to true in the header")
 
 # ---- rename-robustness probes (behaviour-preserving) -------------------------------------
-benign("rn-c13-weight1", "C13", HUFE, "weight1", "first_w", count=3)
-benign("rn-c13-dec1", "C13", HUFD, "dec1", "even_dec", count=5)
-benign("rn-c13-split-size", "C13", HUFE, "split_size", "part_len", count=5)
-benign("rn-c17-match-entry", "C17", MGEN, "match_entry", "cand_entry", count=12)
-benign("rn-c15-compressed", "C15", FAST, "compressed_size", "enc_len", count=5)
-benign("rn-c02-last-block", ["C02", "C15", "C08"], FCOMP, "last_block", "is_final", count=7)
-benign("rn-c02-uncompressed", ["C02", "C15", "C08"], FCOMP, "uncompressed_data", "block_buf", count=17)
+def rename(name, prop, file, old, new, locals_only=False):
+    CASES.append({"name": name, "kind": "benign", "prop": prop,
+                  "edits": [{"file": file, "rename": (old, new), "locals_only": locals_only}]})
+
+
+rename("rn-c13-weight1", "C13", HUFE, "weight1", "first_w")
+rename("rn-c13-dec1", "C13", HUFD, "dec1", "even_dec")
+rename("rn-c13-split-size", "C13", HUFE, "split_size", "part_len")
+rename("rn-c17-match-entry", "C17", MGEN, "match_entry", "cand_entry")
+rename("rn-c15-compressed", "C15", FAST, "compressed_size", "enc_len")
+benign("rn-c02-last-block", ["C02", "C15", "C08"], FCOMP, "            let last_block;", "            let is_final;", more=[
+    {"file": FCOMP, "find": "                    last_block = true;", "replace": "                    is_final = true;", "count": 1},
+    {"file": FCOMP, "find": "                    last_block = false;", "replace": "                    is_final = false;", "count": 1},
+    {"file": FCOMP, "find": "                        last_block,\n", "replace": "                        last_block: is_final,\n", "count": 1},
+    {"file": FCOMP, "find": "compress_fastest(&mut self.state, last_block, uncompressed_data, output)", "replace": "compress_fastest(&mut self.state, is_final, uncompressed_data, output)", "count": 1},
+    {"file": FCOMP, "find": "            if last_block {", "replace": "            if is_final {", "count": 1}])
+rename("rn-c02-uncompressed", ["C02", "C15", "C08"], FCOMP, "uncompressed_data", "block_buf")
 benign("rn-c12-table-size", "C12", FSEE, "fn next_position(mut p: usize, table_size: usize) -> usize {\n    p += (table_size >> 1) + (table_size >> 3) + 3;\n    p &= table_size - 1;", "fn next_position(mut p: usize, size: usize) -> usize {\n    p += (size >> 1) + (size >> 3) + 3;\n    p &= size - 1;")
 
 
